@@ -41,6 +41,7 @@ let opt (s : string) : bytes option = if s = "~" then None else Some (unhex s)
 
 let rec int_of_nat (n : nat) : int = match n with O -> 0 | S m -> 1 + int_of_nat m
 let int_of_nat n = let rec go n acc = match n with O -> acc | S m -> go m (acc + 1) in go n 0
+let nat_of_int i = let rec go i acc = if i <= 0 then acc else go (i - 1) (S acc) in go i O
 
 let ksf (s : string) : ksf_spec =
   if s = "~" then KsNone
@@ -110,6 +111,13 @@ let request (op : string) (a : string list) : request =
   | "ke_pk", [b] -> QKePk (unhex b)
   | "ke_random_sk", [t] -> QKeRandomSk (unhex t)
   | "lens", [] -> QLens
+  | "p_hash", [m] -> QPHash (unhex m)
+  | "p_hmac", [k; m] -> QPHmac (unhex k, unhex m)
+  | "p_expand", [p; i; n] -> QPExpand (unhex p, unhex i, nat_of_int (int_of_string n))
+  | "p_h2g", [m; dst] -> QPH2g (unhex m, unhex dst)
+  | "p_h2s", [m; dst] -> QPH2s (unhex m, unhex dst)
+  | "p_smul", [e; s] -> QPSmul (unhex e, unhex s)
+  | "p_sinv", [s] -> QPSinv (unhex s)
   | "flow", [t; pw; c; ctx; idu; ids; k] ->
     QFlow (unhex t, unhex pw, unhex c, opt ctx, opt idu, opt ids, ksf k)
   | "flow_nofile", [t; pw; c; ctx; idu; ids; k] ->
